@@ -146,6 +146,8 @@ def main(argv=None):
 
     if not args.no_evidence:
         extra = {"analysed": st, "clauses_decided": spec["decided"], "not_decided": spec["not_decided"]}
+        folded = sorted({"%s:%s (%s)" % (m.relpath, q, how) for m in repo.modules.values() for q, how, _ln in getattr(m, "inlined", [])})
+        extra["new_helpers_folded_into_callers"] = folded
         if selftest_info is not None:
             extra["both_ways_selftest"] = selftest_info
         write_evidence(prop, args.tier, seed, obs, timer.elapsed(), spec["explanation"], spec["assumptions"],
